@@ -40,7 +40,7 @@ def main():
         viol = [l for l in out.split("\n") if l.startswith("VIOLATION")]
         if rc == 0 and not viol:
             o = "ok"
-        elif rc == 2:
+        elif rc == 2 or not viol:
             o = "infra"
         elif viol and all("no-failing-input-found" in v for v in viol):
             o = "tie-broken"
